@@ -1,5 +1,6 @@
 SPECIFICATION Spec
-CONSTANT NIds = 3
+CONSTANTS NIds = 3
+  Colliding = FALSE
 INVARIANT Inv
 PROPERTY RejectedIsStutter
 CHECK_DEADLOCK FALSE
